@@ -10,6 +10,9 @@ VARIABLES l, devs
 tvars == <<l, devs>>
 
 IsEv(e) == l <= Len(Rec) /\ Rec[l].ev = e /\ l' = l + 1
+\* a panic of the library is recorded as {"panic": true}; except where a
+\* deviation explains it (T_Rdata) no action matches such an event
+NoPanic == "panic" \notin DOMAIN Rec[l]
 Range(s) == {s[i] : i \in 1..Len(s)}
 
 TInit == l = 1 /\ devs = {}
@@ -18,14 +21,14 @@ T_Devs == IsEv("devs") /\ devs' = Range(Rec[l].open)
 Obs4(e) == [eq |-> e.eq, cmp |-> e.cmp, composed |-> e.composed, lcomposed |-> e.lcomposed,
             hash_ok |-> e.hash_ok, issues |-> e.issues]
 
-T_Label == /\ IsEv("label") /\ UNCHANGED devs
+T_Label == /\ IsEv("label") /\ NoPanic /\ UNCHANGED devs
            /\ LET e == Rec[l] IN
               Obs4(e) = [eq |-> LabelEq(e.a, e.b), cmp |-> CanonLabelCmp(e.a, e.b),
                          composed |-> LabelComposedCmp(e.a, e.b),
                          lcomposed |-> LabelLowerComposedCmp(e.a, e.b),
                          hash_ok |-> TRUE, issues |-> <<>>]
 
-T_Name == /\ IsEv("name") /\ UNCHANGED devs
+T_Name == /\ IsEv("name") /\ NoPanic /\ UNCHANGED devs
           /\ LET e == Rec[l]
                  m == FromWire(e.a, 1)
                  n == FromWire(e.b, 1)
@@ -35,7 +38,7 @@ T_Name == /\ IsEv("name") /\ UNCHANGED devs
                               lcomposed |-> NameLowerComposedCmp(m.name, n.name),
                               hash_ok |-> TRUE, issues |-> <<>>]
 
-T_CharStr == /\ IsEv("charstr") /\ UNCHANGED devs
+T_CharStr == /\ IsEv("charstr") /\ NoPanic /\ UNCHANGED devs
              /\ LET e == Rec[l] IN
                 [eq |-> e.eq, cmp0 |-> e.cmp0, canon |-> e.canon, hash_ok |-> e.hash_ok, issues |-> e.issues]
                 = [eq |-> CharStrEq(e.a, e.b), cmp0 |-> CharStrEq(e.a, e.b),
@@ -74,7 +77,7 @@ RecOf(j) == LET x == MnemonicOf(j.rtype)
             IN [ok |-> n.ok /\ r.ok, class |-> j.class, owner |-> IF n.ok THEN n.name ELSE <<>>,
                 ttl |-> j.ttl, code |-> j.rtype, t |-> x, val |-> IF r.ok THEN r.val ELSE <<>>]
 T_Record ==
-  /\ IsEv("record") /\ UNCHANGED devs
+  /\ IsEv("record") /\ NoPanic /\ UNCHANGED devs
   /\ LET e == Rec[l]
          r == RecOf(e.a)
          s == RecOf(e.b)
